@@ -8,6 +8,7 @@ import (
 	"strings"
 
 	internal "github.com/go-git/go-git/v6/internal/transport"
+	"github.com/go-git/go-git/v6/plumbing/format/pktline"
 	"github.com/go-git/go-git/v6/plumbing/protocol"
 	"github.com/go-git/go-git/v6/plumbing/protocol/capability"
 	"github.com/go-git/go-git/v6/plumbing/protocol/packp"
@@ -33,7 +34,9 @@ type StreamSession struct {
 // and advertised refs from the stream. For upload-archive, it skips
 // that — the archive protocol has no ref advertisement.
 func NewStreamSession(conn Conn, service string) (*StreamSession, error) {
-	r := bufio.NewReader(conn.Reader())
+	// DiscoverVersion peeks at the first packet: the buffer has to hold one
+	// of the maximal size.
+	r := bufio.NewReaderSize(conn.Reader(), pktline.MaxSize)
 	w := conn.Writer()
 
 	s := &StreamSession{
